@@ -270,6 +270,8 @@ def check(repo, rep):
             seen['int'] += 1
             cs = [lin_cond(c[0], c[1], ('selected', 'channels')) for c in conds]
             cs = [c for c in cs if c is not None]
+            if not feasible([lge(LV('channels'), LC(2))] + cs):
+                continue            # path impossible for channels >= 2 (mono returned earlier)
             if l.outcome == 'raise':
                 int_reject.append((cs, l))
                 rep.ob('an out-of-range channel index raises ValueError', exc_name(l) == 'ValueError', where, 'make_channel_selector[int]:exception', 'raises %s' % exc_name(l))
